@@ -54,6 +54,8 @@ fn main() {
         "c08" => vmon::lc::run_c08(&p),
         "c09" => vmon::c09::run(&p),
         "c10" => vmon::c10::run(&p),
+        "c11" => vmon::filt::run_c11(&p),
+        "c12" => vmon::filt::run_c12(&p),
         _ => {
             eprintln!("unknown property {}", prop);
             std::process::exit(2)
